@@ -147,6 +147,93 @@ class Env:
         raise jet.Unsupported("expression %s" % A.show(e)[:60])
 
 
+class ErrEnv(Env):
+    """J3: first-order rounding model on the closed-form expression tree at theta = theta*.
+    Every node is (series value, absolute error bound at theta*).  Unit roundoff u per operation and per elementary function;
+    the input angle is taken as exact (its rounding is a backward error of the input)."""
+
+    def __init__(self, fn_node, bindings, theta, u):
+        super().__init__(fn_node, bindings)
+        self.theta = theta
+        self.u = u
+        self.ecache = {}
+
+    def mag(self, sr):
+        """|value| of a series at theta* (exact rational evaluation of the computed terms)"""
+        return abs(sum(float(c) * self.theta ** k for k, c in sr.c.items()))
+
+    def eve(self, e):
+        t = e[0]
+        key = A.show(e)
+        if key in self.bound:
+            return self.bound[key], 0.0
+        if t == "num":
+            return jet.Series.const(e[1]), 0.0
+        if t == "ref":
+            name, did = e[1], e[2]
+            if name in self.bound:
+                return self.bound[name], 0.0
+            if did in self.ecache:
+                return self.ecache[did]
+            if did in self.vars:
+                r = self.eve(A.to_expr(self.vars[did][1]))
+                self.ecache[did] = r
+                return r
+            raise jet.Unsupported("free variable %s" % name)
+        if t == "neg":
+            v, er = self.eve(e[1])
+            return -v, er
+        if t == "op":
+            op = e[1]
+            (a, ea), (b, eb) = self.eve(e[2]), self.eve(e[3])
+            if op in ("+", "-"):
+                r = a + b if op == "+" else a - b
+                return r, ea + eb + self.u * self.mag(r)
+            if op == "*":
+                r = a * b
+                return r, self.mag(a) * eb + self.mag(b) * ea + self.u * self.mag(r)
+            if op == "/":
+                r = a / b
+                mb = self.mag(b)
+                if mb == 0:
+                    raise jet.Unsupported("division by a quantity that vanishes at theta*")
+                return r, ea / mb + self.mag(a) * eb / (mb * mb) + self.u * self.mag(r)
+            raise jet.Unsupported("operator %s" % op)
+        if t == "call":
+            nm = e[1] if isinstance(e[1], str) else None
+            base = (nm or "").split("::")[-1]
+            args = [self.eve(a) for a in e[2]]
+            if base in ("sqrt", "sin", "cos", "tan"):
+                x, ex = args[0]
+                r = {"sqrt": x.sqrt, "sin": x.sin, "cos": x.cos, "tan": x.tan}[base]()
+                # |f'(x)| <= 1 for sin/cos near 0; sqrt'(x) = 1/(2 sqrt x); tan' ~ 1
+                if base == "sqrt":
+                    d = 0.5 / max(self.mag(r), 1e-300)
+                else:
+                    d = 1.0
+                return r, d * ex + self.u * self.mag(r)
+            if base == "atan2":
+                (y, ey), (x, ex) = args
+                r = jet.Series.atan2(y, x)
+                return r, ey / max(self.mag(x), 1e-300) + ex * self.mag(y) / max(self.mag(x) ** 2, 1e-300) + self.u * self.mag(r)
+            raise jet.Unsupported("call %s" % nm)
+        raise jet.Unsupported("expression %s" % A.show(e)[:60])
+
+
+def branch_errors(env, br):
+    br = A.strip(br)
+    if br.get("kind") == "CompoundStmt":
+        rets = [x for x in A.walk(br) if x.get("kind") == "ReturnStmt"]
+        expr = A.kids(rets[0])[0]
+    elif br.get("kind") == "ReturnStmt":
+        expr = A.kids(br)[0]
+    else:
+        expr = br
+    e = A.to_expr(expr)
+    items = e[1] if e[0] == "init" else (e[2] if (e[0] == "ctor" and len(e[2]) > 1) else [e])
+    return [env.eve(x) for x in items]
+
+
 def has_transc(node):
     for x in A.walk(node):
         if x.get("kind") == "CallExpr":
@@ -232,6 +319,7 @@ def analyse_site(site, weights):
     env2 = Env(fn, bindings)
     large_vals, large_txt = branch_value(env2, large)
     return {
+        "bindings": bindings, "large_node": large, "fn": fn,
         "var": vname, "threshold": thr, "then_small": then_small, "bound": bound_how,
         "small_transc": has_transc(small), "large_transc": has_transc(large),
         "small": small_vals, "large": large_vals, "small_txt": small_txt, "large_txt": large_txt,
@@ -304,6 +392,8 @@ def run(rep, pid, idx=None):
             rep.broke("call of detail::%s from %s (%s:%s) has no use-weight entry" % (tail, caller, fe.rel(f), l))
 
     rep.rule("J0", "branch selected for small angles is the polynomial branch; other one is closed-form")
+    rep.rule("J3", "closed-form branch just above the switch: first-order rounding model (reported only at >= 100x the tolerance)")
+    FLOAT_TOL = {"C02": 1e-3, "C04": 1e-2}
     rep.rule("J1J2", "sup |closed - series| * weight <= tolerance for every coefficient in scope of %s" % pid)
 
     for fq, ss in sorted(site_by_fn.items()):
@@ -343,6 +433,39 @@ def run(rep, pid, idx=None):
                 rep.broke("switch in %s returns %d/%d values, table expects %d" %
                           (fq, len(r["small"]), len(r["large"]), n_expected))
                 continue
+            # J3: conditioning of the closed form at theta* (double always; float where the property states a float tolerance)
+            for scalar, u, tl in (("double", 2.0 ** -53, tol), ("float", 2.0 ** -24, FLOAT_TOL.get(pid))):
+                if tl is None:
+                    continue
+                try:
+                    eenv = ErrEnv(r["fn"], r["bindings"], theta, u)
+                    errs = branch_errors(eenv, r["large_node"])
+                except jet.Unsupported as ex:
+                    rep.broke("J3: cannot evaluate the rounding model for %s: %s" % (fq, ex))
+                    break
+                for i, w in entries:
+                    if i >= len(errs):
+                        continue
+                    val, err = errs[i]
+                    eff = err * wfun(w)(theta)
+                    inst = "coeff%d%s" % (i, ("@" + w["caller"]) if "caller" in w else "")
+                    sample = {"file": fe.rel(s.file), "line": s.line, "closed_branch": r["large_txt"][i], "abs_error_bound": err,
+                              "predicted_relative_effect": eff, "tolerance": tl, "scalar": scalar, "theta_star": theta}
+                    if eff >= 100 * tl:
+                        rep.instance("J3", fq, inst + ":" + scalar, ok=False, sample=sample)
+                        rep.violation(Finding(
+                            "J3", fq, inst,
+                            "closed-form branch `%s` is ill-conditioned just above the switch (theta* = %.1e, %s): cancellation amplifies rounding to an "
+                            "absolute error of about %.2g in the coefficient, predicted relative effect %.2g (weight %s*theta^%s) vs tolerance %g of %s -- "
+                            "the switch threshold is too small for this expression"
+                            % (r["large_txt"][i], theta, scalar, err, eff, w["c"], w.get("p", 0), tl, pid), s.file, s.line, scalar=scalar,
+                            detail={"predicted": eff}))
+                    elif eff > tl:
+                        rep.instance("J3", fq, inst + ":" + scalar, ok=True, sample=sample)
+                        rep.note("INCONCLUSIVE J3 %s %s (%s): rounding model predicts %.2g (tolerance %g); the model is 5-30x pessimistic, "
+                                 "only >= 100x the tolerance is reported" % (fq, inst, scalar, eff, tl))
+                    else:
+                        rep.instance("J3", fq, inst + ":" + scalar, ok=True, sample=sample)
             for i, w in entries:
                 S, C = r["small"][i], r["large"][i]
                 D = C - S
